@@ -79,8 +79,8 @@ def hash_jobs(seed, per_fam, algs=None, rejects=0.0, classes=True, fams=None):
                 continue
             bs = []
             for i in range(per_fam):
-                if classes and i % 3 == 0:
-                    bs.append(gen_hash.class_behaviour(rng, alg, fam, gen_hash.CLASS_PATTERNS[(i // 3) % len(gen_hash.CLASS_PATTERNS)]))
+                if classes and i % 2 == 0:
+                    bs.append(gen_hash.class_behaviour(rng, alg, fam, gen_hash.CLASS_PATTERNS[(i // 2) % len(gen_hash.CLASS_PATTERNS)]))
                 else:
                     bs.append(gen_hash.random_behaviour(rng, alg, fam, with_rejects=rejects))
             jobs.append(hash_job("%s-%s" % (alg, fam), bs))
